@@ -86,16 +86,17 @@ def skipWs (s : Bytes) : Bytes := skipWsSimd (s.length + 1) s
 
 /-- byte-at-a-time specification of `edn_simd_find_quote`: the suffix that starts at the
     first unescaped `"`, and whether a backslash was seen before it; `none` when the
-    input ends first or ends right after a backslash -/
-def findQuoteScalar : Bool → Bytes → Option (Bytes × Bool)
-  | _, [] => none
-  | bs, c :: cs =>
-    if c == 0x5C then
-      match cs with
-      | [] => none
-      | _ :: cs' => findQuoteScalar true cs'
+    input ends first or ends right after a backslash.  First argument: the previous byte
+    was an (unescaped) backslash, so this byte is skipped. -/
+def findQuoteScalarAux : Bool → Bool → Bytes → Option (Bytes × Bool)
+  | _, _, [] => none
+  | true, bs, _ :: cs => findQuoteScalarAux false bs cs       -- the byte after a backslash
+  | false, bs, c :: cs =>
+    if c == 0x5C then findQuoteScalarAux true true cs
     else if c == 0x22 then some (c :: cs, bs)
-    else findQuoteScalar bs cs
+    else findQuoteScalarAux false bs cs
+
+def findQuoteScalar (bs : Bool) (s : Bytes) : Option (Bytes × Bool) := findQuoteScalarAux false bs s
 
 /-- `edn_simd_find_quote`, x86-64 branch -/
 def findQuoteSimd : Nat → Bool → Bytes → Option (Bytes × Bool)
